@@ -182,6 +182,17 @@ func (Engine) Run(t *tape.Tape, o eng.Opts) *eng.Result {
 		p.Envs = []int{0}
 		res.Probes["panic_storms"]++
 	}
+	// slow node: one task may stall at an arbitrary step while one or two requests of other
+	// tasks run to completion, and resume right after
+	cfg.StallSite, cfg.StallPermille, cfg.StallHorizon = world.SiteReq, 200, 160
+	if world.AutoMode {
+		cfg.StallPermille, cfg.StallHorizon = 600, 4000
+		if sw.Intn(3) != 0 {
+			// stop between the evaluation of a nested call and the use of its value: the windows
+			// only the expression-level yields (site 99) open
+			cfg.StallCountSite, cfg.StallHorizon = 99, 500
+		}
+	}
 	freshTwin := sw.Intn(5) == 1
 	if cfgLong {
 		cfg.MaxSteps = world.StepCap(80000)
@@ -242,6 +253,8 @@ func (Engine) Run(t *tape.Tape, o eng.Opts) *eng.Result {
 	res.Steps, res.Ticks, res.Switches = sr.Steps, sr.Ticks, sr.Switches
 	res.SchedHash, res.SwitchHash, res.SwitchPairs, res.Sites = sr.SchedHash, sr.SwitchHash, sr.SwitchPairs, sr.SiteHits
 	res.Blocked = sr.BlockedHandovers
+	res.Faults["stalled-task"] += sr.Stalls
+	res.Probes["stall_ended_by_progress_of_others"] += sr.StallThaws
 	res.Requests = len(all)
 	res.Nontrivial = len(sr.SwitchPairs) > 0
 	rec := t.Record()
